@@ -107,7 +107,7 @@ Definition src_of_fault (n : nat) (f : option fault) : source :=
     if Nat.ltb i n then
       match fires f (Datatypes.S i) with
       | Some e => ([], Some (IO e))
-      | None => ([N.of_nat i], None)
+      | None => ([1%N], None)      (* one chunk; a truncated result is shorter *)
       end
     else ([], Some EOF).
 
